@@ -1138,6 +1138,65 @@ func ruleDebug(c *Ctx) {
 	} else {
 		c.R.Anchor("debug.Record.Clear")
 	}
+	// DB-7 the debug flag reaches every sub-expression: inside the closure compiler a function that itself received the flag
+	// passes it on unchanged to every function of the package that takes one (a constant there switches recording off — or on —
+	// for a whole sub-tree, e.g. the callee of a dynamically dispatched call)
+	if pk := c.Mod["closure"]; pk != nil {
+		flagIdx := map[types.Object]int{}
+		var decls []*ast.FuncDecl
+		for _, f := range pk.Syntax {
+			for _, d := range f.Decls {
+				fd, ok := d.(*ast.FuncDecl)
+				if !ok || fd.Body == nil || fd.Type.Params == nil {
+					continue
+				}
+				decls = append(decls, fd)
+				k := 0
+				for _, fl := range fd.Type.Params.List {
+					n := len(fl.Names)
+					if n == 0 {
+						n = 1
+					}
+					if typeStr(c.typeOf(fl.Type)) == "bool" && len(fl.Names) == 1 {
+						flagIdx[pk.TypesInfo.Defs[fd.Name]] = k
+					}
+					k += n
+				}
+			}
+		}
+		sites := 0
+		for _, fd := range decls {
+			self := pk.TypesInfo.Defs[fd.Name]
+			idx, has := flagIdx[self]
+			if !has {
+				continue
+			}
+			var flag types.Object
+			k := 0
+			for _, fl := range fd.Type.Params.List {
+				for _, nm := range fl.Names {
+					if k == idx {
+						flag = c.objOf(nm)
+					}
+					k++
+				}
+				if len(fl.Names) == 0 {
+					k++
+				}
+			}
+			for _, call := range c.allCallsDeep(fd.Body) {
+				ci, ok := flagIdx[c.calleeObj(call)]
+				if !ok || ci >= len(call.Args) {
+					continue
+				}
+				sites++
+				a := unparen(call.Args[ci])
+				id, isID := a.(*ast.Ident)
+				c.R.Check(isID && c.objOf(id) == flag, fnName("closure", fd), "DB-7 debug flag passed on to "+c.calleeName(call), call.Pos(), "the callee compiles its sub-expressions in the caller's mode", "the debug flag handed to "+c.calleeName(call)+" is "+src(a)+", not the caller's own flag: the sub-expressions compiled there are recorded in the wrong mode (terms missing from the power-assert report, or recorded in normal evaluation)")
+			}
+		}
+		c.R.Check(sites >= 3, "closure", "DB-7 flag-passing call sites found", token.NoPos, "compile0, dispatchers and argument compilation pass the flag", "fewer than three flag-passing call sites found in the closure compiler")
+	}
 	// DB-3 column flow in the parser
 	for fn, want := range map[string]string{"parseCall": "(CallExpr Fun:(SelectorExpr pos Sel:DBGCol) Args:[(SelectorExpr $p3 Sel:Col)])", "parseDot": "(CallExpr Fun:(SelectorExpr pos Sel:DBGCol) Args:[(SelectorExpr $p3 Sel:Col)])", "parseSubscript": "(CallExpr Fun:(SelectorExpr pos Sel:DBGCol) Args:[(SelectorExpr $p3 Sel:Col)])"} {
 		fd := c.FuncDecl("parser", fn)
